@@ -203,3 +203,8 @@ package system
 //@   assigns everything
 //@   ensures E1 [C15]: ghost.execErr != nil ==> result1 != nil && len(result0) == 0
 //@   ensures E2 [C15]: result1 != nil ==> result1 == ghost.execErr
+
+//@ func NewDialer
+//@   assigns new heap(system.Dialer), brk
+//@   ensures E1 [C20]: result != nil && fresh(result) && result.iface == iface && result.state == state && result.mode == mode
+//@   opt trusted constructor: fills the struct and binds DialFunc to the method value d.dial
